@@ -843,6 +843,11 @@ func genWill(prop string) func(tier string, seed uint64, idx int) interface{} {
 					if r.Bool(1, 10) {
 						sz = 2000 + r.Intn(5000)
 					}
+					if x.sc.Knobs.BufSize == 16384 && r.Bool(1, 25) {
+						// a will that does not fit into a subscriber's ring (CONNECT
+						// is not read through the ring, so the broker accepts it)
+						sz = 16384 + 16 + r.Intn(30000)
+					}
 					x.willN++
 					op.Will = &Will{Topic: "will/" + x.topic(), QoS: byte(r.Intn(3)), Retain: r.Bool(1, 4), Size: sz, Ver: x.willN}
 				}
@@ -1276,6 +1281,12 @@ func (x *g) attacker(ai int, kind int) Client {
 	valid := Op{K: "connect", CID: fmt.Sprintf("att%d", ai), Clean: r.Bool(2, 3), KA: 600, Auth: true, User: "a", Pass: "secret-a"}
 	if r.Bool(1, 3) {
 		valid.Will = &Will{Topic: "att/will", QoS: byte(r.Intn(3)), Size: 8 + r.Intn(20)}
+		if x.sc.Knobs.BufSize == 16384 && r.Bool(1, 4) {
+			valid.Will.Size = 16384 + 16 + r.Intn(30000) // larger than any subscriber's ring
+			if r.Bool(1, 2) {
+				valid.Will.Topic = "w/att-will" // addressed to the witness subscriber
+			}
+		}
 	}
 	switch kind {
 	case 0: // garbage before CONNECT
